@@ -210,6 +210,8 @@ def run(rec, cfg):
              "7.0^900", "7^900", "7.0^900 - 7.0^900", "7^900 - 7^900", "0.5 * 7.0^900", "3.0^2000", "3^2000", "3.0^2000 + 1",
              # divisors that are exactly zero but reach the division as numpy floats (through a power)
              "1 / 0.0^2", "3 / 0^0.5", "5 / (2^-1 - 0.5)", "-4 / (y^0.5 - y^0.5)", "x / 0^1.5", "7 / (0.5^2 - 0.25)", "2 / (4^-1 - 0.25) + 1",
+             # quotients far beyond the floats (dividend an exact integer above 1e308)
+             "10^400 / 2.5", "10^400 / 3", "2.5 / 10^400", "x / 2.5 + 10^400 / 4", "(10^200 * 10^200) / 0.5", "7^500 / 1.5 - 1",
              # a division by zero (NaN) on one side of an equation
              "3 = x / (y - y)", "x / (y - y) = 3", "7 + z = 12 / (z - z)", "1 / 0 = 1 / 0", "x = 4 / 0", "(x + 1) / (x - x) = y"]
     for i in range(n):
